@@ -315,7 +315,7 @@ func c09Clauses(r *rt.Run) {
 	}
 	rec(nil, make([]bool, len(c04Lits)))
 	// clauses that end in a name constant, and chained transforms
-	for _, body := range []string{"q(X), X = /a", "X = /a, q(X)", "q(X), X != /a/b", "q(X), /a = X", "q(X), X = /a.b", "q(X), !s(/a)", "q(X), X = \"s\"", "q(X), X = 1.5"} {
+	for _, body := range []string{"q(X), X = /rate/50%", "q(X), r(X, \"a%b\")", "q(X), r(X, \"%s %d %v %%\")", "q(/a%20b), q(X)", "q(X), X != b\"%x\"", "q(X), X = /a", "X = /a, q(X)", "q(X), X != /a/b", "q(X), /a = X", "q(X), X = /a.b", "q(X), !s(/a)", "q(X), X = \"s\"", "q(X), X = 1.5"} {
 		for _, h := range c04Heads {
 			for _, t := range append(append([]string{}, c04Transforms...), " |> let Y = fn:plus(X, 1) |> let Z = fn:plus(Y, 1)", " |> do fn:group_by(X), let Y = fn:count() |> let Z = fn:plus(Y, 1)", " |> let Y = /a", " |> do fn:group_by(), let Y = fn:count() |> let Z = /a") {
 				c09ClauseCase(r, h+" :- "+body+t+".", "plain-extra")
